@@ -291,7 +291,12 @@ Definition equality_only (f : value) : bool :=
 Definition update_paths (u : value) : list string :=
   match u with
   | VDoc ufs => flat_map (fun kv => match snd kv with
-                                    | VDoc fields => map fst fields
+                                    | VDoc fields =>
+                                        map fst fields
+                                        (* a $rename also writes its target path *)
+                                        ++ (if String.eqb (fst kv) "$rename"
+                                            then flat_map (fun f => match snd f with VStr t => [t] | _ => [] end) fields
+                                            else [])
                                     | _ => [] end) ufs
   | _ => []
   end.
